@@ -142,10 +142,10 @@ prop('C16',
               params={'quick': {'steps': 3}, 'thorough': {'steps': 4}}, conform={'quick': 60, 'thorough': 500}, nvals=30),
          EXECUTOR_REQUEST,
          dict(harness='c16_dial_ledger', covers=['c16k.started', 'c16k.put-started', 'c16k.dial-failure', 'c16k.quiescent'], min_paths=20, split=3,
-              params={'quick': {'steps': 2}, 'thorough': {'steps': 4}}, conform={'quick': 60, 'thorough': 500}, nvals=16),
+              params={'quick': {'steps': 2}, 'thorough': {'steps': 3}}, conform={'quick': 60, 'thorough': 500}, nvals=16),
      ],
      bounds={'peer universe': 3, 'targets': '<= 3 with duplicates', 'events': 'quick 3, thorough 4',
-             'dial ledger': '1..2 known unconnected peers plus optionally one peer known only under an address no transport can dial; quick 2 / thorough 4 events of start FIND_NODE / PUT_VALUE to any subset of the peers (quorum One/All) / dial failure, then all dials fail'},
+             'dial ledger': '1..2 known unconnected peers plus optionally one peer known only under an address no transport can dial; quick 2 / thorough 3 events of start FIND_NODE / PUT_VALUE to any subset of the peers (quorum One/All) / dial failure, then all dials fail'},
      outside=['the remaining fault placements of Kademlia::run (substream I/O, executor time-outs, disconnects midway, put/provider send phases through real substreams)'],
      )
 
